@@ -1,9 +1,81 @@
-"""Bridge to the concrete replayer (searches a failing input against the real crate). Filled in later."""
+"""Bridge to the concrete replayer (replayer/): builds it against the current working tree of the repo, searches a
+failing input for a property family, and re-executes recorded inputs."""
+import json
+import os
+import subprocess
+import time
+
+import units
+
+RDIR = os.path.join(units.VERIF, 'replayer')
+BIN = os.path.join(RDIR, 'target', 'debug', 'replayer')
+FAMILY = {'C01': ['byte'], 'C02': ['byte'], 'C06': ['byte'], 'C07': ['byte'], 'C09': ['byte', 'sub'],
+          'C05': ['bytemem', 'submem'], 'C14': ['byte', 'sub'], 'C18': ['sub']}
+_built = False
 
 
-def search(pid, violation, seed):
-    return None
+def build():
+    global _built
+    if _built:
+        return True
+    lock = os.path.join(units.REPO, 'Cargo.lock')
+    if os.path.exists(lock):
+        try:
+            open(os.path.join(RDIR, 'Cargo.lock'), 'w').write(open(lock).read())
+        except OSError:
+            pass
+    env = dict(os.environ, CARGO_NET_OFFLINE='true')
+    pr = subprocess.run(['cargo', 'build', '--offline'], cwd=RDIR, capture_output=True, text=True, env=env)
+    _built = pr.returncode == 0
+    return _built
+
+
+def search(pid, violation, seed, budget_ms=None):
+    """-> dict(failing_input=..., note=...) or None"""
+    if os.environ.get('VERIF_NO_REPLAYER'):
+        return None
+    if not build():
+        return dict(failing_input=None, note='no-failing-input-found (replayer does not build against this tree)')
+    budget = budget_ms or int(os.environ.get('VERIF_REPLAY_BUDGET_MS', '12000'))
+    fams = FAMILY.get(pid, ['sub'])
+    for fam in fams:
+        casefile = os.path.join(units.VERIF, 'work', 'replayer_case_%s.txt' % fam)
+        os.makedirs(os.path.dirname(casefile), exist_ok=True)
+        try:
+            os.remove(casefile)
+        except OSError:
+            pass
+        args = [BIN, 'search', fam, str(seed + 1), str(budget // len(fams))]
+        if fam.endswith('mem'):
+            args.append(casefile)
+        pr = subprocess.run(args, capture_output=True, text=True)
+        line = pr.stdout.strip().split('\n')[-1] if pr.stdout.strip() else ''
+        if pr.returncode < 0 or (pr.returncode != 0 and not line):
+            # crashed (e.g. SIGSEGV on a guard page): the case file names the culprit
+            try:
+                f, n, h, a, v = open(casefile).read().split(' ')
+            except Exception:
+                continue
+            return dict(failing_input=dict(family=f, needle=n, haystack=h, align=int(a), variant=int(v),
+                                           message='process killed by signal %d while executing this case' % (-pr.returncode)),
+                        note='concrete failing input found by the replayer')
+        try:
+            j = json.loads(line)
+        except Exception:
+            continue
+        if j.get('fail'):
+            return dict(failing_input=dict(family=j['family'], needle=j['needle'], haystack=j['haystack'], align=j['align'],
+                                           variant=j['variant'], message=j['fail']),
+                        note='concrete failing input found by the replayer')
+    return dict(failing_input=None, note='no-failing-input-found')
 
 
 def replay(pid, rec):
-    return True
+    """True if the recorded input passes now"""
+    fi = rec.get('failing_input')
+    if not fi or not build():
+        return True
+    pr = subprocess.run([BIN, 'replay', fi['family'], fi['needle'] or '', fi['haystack'] or '', str(fi['align']), str(fi['variant'])],
+                        capture_output=True, text=True)
+    print(pr.stdout.strip())
+    return pr.returncode == 0
